@@ -74,6 +74,20 @@ def handleE2EArp : List String → Option String
     pure s!"{m}\t{b2s (obs == m)}"
   | _ => none
 
+/-- `e2earpkill injected obs`: `sx arp --json` ended by a signal it does not handle while results were being printed.
+    By `C11_printed_line_loads` every line the scan prints loads as (printed address ↦ printed MAC); what is on stdout at that
+    (arbitrary) moment is made of such lines only: the loader accepts it, it is not empty, and every entry is an
+    answer that was given. -/
+def handleE2EArpKill : List String → Option String
+  | [inj, obs] => do
+    let pairs := if inj.isEmpty then [] else inj.splitOn ","
+    let v := match obs.splitOn ";" with
+      | [l, n] => l.startsWith "load=" && n != "lines=0" &&
+          (((l.drop 5).toString.splitOn ",").all (fun p => pairs.contains p))
+      | _ => false
+    pure s!"{if v then obs else "load=<answers given>"}\t{b2s v}"
+  | _ => none
+
 /-- `e2esigint cmdline delayMs boundMs canon|raw` (harness/cmd/sxdiff/e2esig.go): a rate-limited run of the real binary
     that got SIGINT `delayMs` after its start.  By `C12_bounded_return` / `C12_no_panic` / `C12_whole_records` the scan call
     returns, nothing panics and the output holds whole records only; at the process boundary: the process was still
